@@ -43,6 +43,30 @@ CLAIMS = {
         note="Trusted: spnego unwrap_iov raises on a bad signature; Python slicing semantics.",
         ref="DESIGN.md section 5 / C16",
     ),
+    "C09": dict(
+        technique="static analysis: interval analysis of true divisions, formula canonicalisation with constant folding, reaching definitions",
+        text="Decides: no true division downstream of the clock has integer operands outside +-2^53; L0/L1/L2 normalise to floor(t/D) [mod M] with the MS-GKDI constants and t = time_ns()//100 + 116444736000000000; one clock read feeds all three; those definitions are the cache-lookup arguments, the compute_l2_key targets and the fields of every returned envelope. Does not decide: that the OS clock is right.",
+        note="Trusted: time.time_ns(); Python int arithmetic exact, float division IEEE-754.",
+        ref="DESIGN.md section 5 / C09",
+    ),
+    "C15": dict(
+        technique="static analysis: reaching definitions + dominators/guards on the bind() twins, symbolic evaluation of PDU constructors, who-may-write rule, CFG path enumeration",
+        text="Decides the structural rules that make the relay faithful for any peer: first step() trailer goes out in Bind; each later step() result reaches _create_alter_context -> _send_pdu unless its token is empty; the token fed to a step is the one taken from the previous reply; steps only run while the context is incomplete; alter_context carries only accepted contexts; auth_len / header-sign flag construction; _sign_header write discipline; requests only after _process_bind_result accepted that context (tested on the result field); BindNak/Fault/unexpected types raise. Does not decide: enumeration of peer scripts.",
+        note="Trusted: spnego step()/complete semantics.",
+        ref="DESIGN.md section 5 / C15",
+    ),
+    "C19": dict(
+        technique="static analysis: interprocedural provenance (reaching definitions through helpers) of key/nonce sinks to OS entropy calls; decorator/global-state rules; constant folding of sizes",
+        text="Decides: CEK, GCM nonce, nonce-mode key_info and ephemeral private key each originate on every path from os.urandom/AESGCM.generate_key evaluated during the protect call (not a parameter, module state, cached or stateful helper), with sizes 256 bit / 12 / 32 / ceil(private_key_length/8); no PRNG module; the wrapped CEK is the encrypting CEK and the public key belongs to the fresh private key. Does not decide: statistical distinctness itself.",
+        note="Trusted: os.urandom / AESGCM.generate_key return fresh OS entropy.",
+        ref="DESIGN.md section 5 / C19",
+    ),
+    "C20": dict(
+        technique="static analysis: string-domain evaluation of the query name over domain given/absent, sort-specification normalisation / sign-vector truth table of scan predicates, twin diff, guards",
+        text="Decides: both lookups query exactly '_ldap._tcp.dc._msdcs'(+'.'+domain iff given) as SRV with search=True; selection = priority ascending then weight descending, first; target text with trailing dot stripped and port/weight/priority copied; API functions look up only when no server is given and use the record's target; sync = async. Does not decide: dnspython's search-list semantics.",
+        note="Trusted: dnspython resolve(); Python sorted().",
+        ref="DESIGN.md section 5 / C20",
+    ),
 }
 
 NA_REASON = "check not built yet in this session (design in DESIGN.md section 5); not claimed until its engine passes the self-test"
